@@ -35,6 +35,9 @@ RULE = (
   "just outside; some pairs explicit with own margin/gap (half of those between geoms without any), one excluded, optional far plane; "
   "1 in 4 multi-world sapband cases carries two rows of geom_size/_rbound/_aabb/_margin/_gap and pair_margin/_gap (world w reads "
   "row w%2, poses steered per row). "
+  "'lateplane' scenes (6 extra cases on quick, 1 per 8 on thorough): 3-7 free geoms declared BEFORE 1-3 arbitrarily rotated planes that sit on jointless "
+  "child bodies / nested static bodies / mocap bodies (the plane is the second geom of the pair in geom-id order), every geom randomly "
+  "oriented, 0.5-5 m from the plane's origin along the plane, surface distance steered into margin band / gap band / edge / penetration / outside. "
   "nworld in {1,2,5,16} with different poses per world; sleep flag on with random trees marked asleep in most of the sleep cases; those also run the "
   "two-pass protocol of step() (collision with the trees asleep, then all awake with collision(awake_prev=...) appending the skipped "
   "pairs) under all three broadphases x masks {0,15}, compared with the two-pass result of NXN/no filter. "
@@ -79,6 +82,10 @@ def cases(tier, seed):
       # tier they see no filter, each single filter and all filters; all 16 masks on the thorough tier
       case["masks"] = [0, 1, 2, 4, 8, 15]
     out.append(case)
+  # 'lateplane' cases (appended, so the cases above keep their ids and seeds): small scenes, all 16 masks on both tiers
+  for j in range(6 if tier == "quick" else n // 8):
+    nworld = (2, 1, 5, 16)[j % 4]
+    out.append({"id": f"lateplane{seed}_{j}", "kind": "lateplane", "nworld": nworld, "sleep": False, "size": (6, 10, 14)[j % 3], "seed": seed * 1000003 + 500000 + j, "weight": 1 + nworld // 4})
   return out
 
 
@@ -295,6 +302,68 @@ def make_sapband(case, rng, flags):
   return key, variants[0], qs, feats, {"variants": variants, "steer": desc}
 
 
+def make_lateplane(case, rng, flags):
+  """Scene of the 'lateplane' family: the free bodies (one geom each) come first, the planes after them, so that in
+  geom-id order (the pair order of the all-pairs broadphase) the plane is the SECOND geom of every plane pair. 1-3
+  planes, each arbitrarily rotated and with its origin away from the world origin, on a jointless child body of the
+  world, on a jointless body nested in a rotated static body, or on a mocap body. Every free geom is steered to one
+  plane: random orientation (its own z axis unrelated to the plane normal), centre 0.5-5 m away from the plane's origin
+  along the plane, surface distance in the margin band / gap band / at the edge / penetrating / just outside."""
+  nworld = case["nworld"]
+  types = ["sphere", "capsule", "ellipsoid", "cylinder", "box", "mesh"]
+  nplane = int(rng.integers(1, 4))
+  nb = max(3, case["size"] // 2)
+  bt = [types[int(rng.integers(6))] for _ in range(nb)]
+  prs = [tuple(sorted(int(x) for x in rng.choice(nb, size=2, replace=False)))] if rng.random() < 0.3 else []
+  opts = {"flags": flags, "p_margin": 0.5, "p_params": 0.1, "polytope_margin": "nativeccd" in flags, "plane": False, "pairs": prs, "excludes": []}
+  xml, info = _col.build_scene(rng, bt, opts)
+  late, hosts = [], []
+  for k in range(nplane):
+    a = {"name": f"lp{k}", "type": "plane", "size": "0 0 1"}
+    _col.contact_attrs(rng, a, opts, False)
+    if rng.random() < 0.5:  # the geom's own frame inside the body contributes to the plane's pose as well
+      a["pos"], a["quat"] = _col._f(rng.normal(size=3) * 0.5), _col._f(_col.rquat(rng))
+    g = "<geom " + " ".join(f'{k_}="{v}"' for k_, v in a.items()) + "/>"
+    # planes far apart (10 m), so that a geom steered to one plane is well above or below the others
+    pose = f'pos="{_col._f(rng.normal(size=3) + np.array([0.0, 0.0, -10.0 * k]))}" quat="{_col._f(_col.rquat(rng) * (0.4 if k else 1.0) + np.array([1.0 if k else 0.0, 0, 0, 0]))}"'
+    host = ("child", "nested", "mocap")[int(rng.integers(3))]
+    hosts.append(host)
+    if host == "nested":
+      late.append(f'<body name="lo{k}" pos="{_col._f(rng.normal(size=3))}" quat="{_col._f(_col.rquat(rng))}"><body name="lb{k}" {pose}>{g}</body></body>')
+    else:
+      late.append(f'<body name="lb{k}" {pose}{" mocap=" + chr(34) + "true" + chr(34) if host == "mocap" else ""}>{g}</body>')
+  xml = xml.replace("</worldbody>", "".join(late) + "</worldbody>")
+  mjm = gen.compile_xml(xml)
+  if mjm is None:
+    return None
+  mjd = mujoco.MjData(mjm)
+  PLANE = int(mujoco.mjtGeom.mjGEOM_PLANE)
+  planes = [g for g in range(mjm.ngeom) if int(mjm.geom_type[g]) == PLANE]
+  qs, desc = [], []
+  for w in range(nworld):
+    qpos = np.zeros(mjm.nq)
+    dsc = []
+    for b in range(nb):
+      ga = mujoco.mj_name2id(mjm, mujoco.mjtObj.mjOBJ_GEOM, info["body_geom"][b])
+      gp = planes[int(rng.integers(len(planes)))]
+      q = _col.axis_quat(rng) if rng.random() < 0.2 else _col.rquat(rng)
+      _col._set_body_pose(qpos, b, np.zeros(3), q)
+      mjd.qpos[:] = qpos
+      mujoco.mj_kinematics(mjm, mjd)
+      p0, R = mjd.geom_xpos[gp].copy(), mjd.geom_xmat[gp].reshape(3, 3).copy()
+      ang, far = rng.uniform(0, 2 * np.pi), rng.uniform(0.5, 5.0)
+      base = p0 + R @ np.array([np.cos(ang) * far, np.sin(ang) * far, 1.0])  # 1 m above the plane, far from its origin
+      _col._set_body_pose(qpos, b, base, q)
+      d1 = _col._geomdist(mjm, mjd, qpos, gp, ga, distmax=3.0)  # = 1 - extent of the geom along the plane normal
+      c, tgt = _draw_band(rng, float(mjm.geom_margin[ga] + mjm.geom_margin[gp]), float(mjm.geom_gap[ga] + mjm.geom_gap[gp]))
+      _col._set_body_pose(qpos, b, base - R[:, 2] * (d1 - tgt), q)
+      dsc.append({"g": (ga, gp), "class": c, "far": float(far)})
+    qs.append(qpos.astype(np.float32).astype(np.float64))
+    desc.append(dsc)
+  feats = ["lateplane"] + [f"lateplane:host:{h}" for h in sorted(set(hosts))] + (["explicit_pairs"] if prs else [])
+  return xml, mjm, qs, feats, {"variants": [mjm], "late": desc}
+
+
 def make(case, rng):
   kind, nworld = case["kind"], case["nworld"]
   flags = {"multiccd": "disable", "nativeccd": "disable"} if rng.random() < 0.5 else {"multiccd": "disable"}
@@ -303,6 +372,8 @@ def make(case, rng):
   types = ["sphere", "capsule", "ellipsoid", "cylinder", "box", "mesh"]
   if kind == "sapband":
     return make_sapband(case, rng, flags)
+  if kind == "lateplane":
+    return make_lateplane(case, rng, flags)
   if kind in ("crowd", "pairs"):
     n = case["size"]
     opts = {"flags": flags, "p_margin": 0.4, "p_params": 0.1, "polytope_margin": "nativeccd" in flags}
@@ -646,7 +717,21 @@ def run_case(case):
     wp.copy(d.body_awake, asleep_arr)
     d.overflow.zero_()
 
-  if extra:
+  if extra and "late" in extra:
+    # lateplane family: plane pairs in which the plane has the higher geom id, with a contact in the baseline (so that
+    # losing the pair is observable) and the geom's centre further from the plane's origin than its bounding radius
+    # plus margins (any distance measured from the plane's origin along a direction other than its normal is off)
+    rec.cover("lateplane:planes_not_on_worldbody", sum(int(mjm.geom_type[g]) == 0 and int(mjm.geom_bodyid[g]) > 0 for g in range(mjm.ngeom)))
+    for w in range(nworld):
+      have = {tuple(sorted(int(x) for x in g)) for g in np.asarray(base[w]["geom"]).reshape(-1, 2)}
+      for s in extra["late"][w]:
+        ga, gp = s["g"]
+        rec.cover(f"lateplane:steered_pairs:{s['class']}", 1)
+        if ga < gp and (ga, gp) in have:
+          rec.cover("lateplane:contact_pairs_plane_is_second_geom", 1)
+          if s["far"] > float(mjm.geom_rbound[ga] + mjm.geom_margin[ga] + mjm.geom_margin[gp]) + 0.1:
+            rec.cover("lateplane:contact_pairs_plane_is_second_geom_centre_far_from_plane_origin", 1)
+  if extra and "steer" in extra:
     # what the steered pairs of the sapband family exercised: a pair counts when the baseline reports a contact for it
     # (so dropping it is observable); "overlap_by" names the term of the projected interval radius
     # (rbound + margin + gap) without which the sweep would no longer see the two intervals overlap
@@ -701,6 +786,13 @@ def requirements(agg, tier):
   for name, least in (("sap:contact_pairs_swept_only_thanks_to_gap", 10), ("sap:contact_pairs_swept_only_thanks_to_margin", 3), ("sap:contact_pairs_with_geoms_sorted_between", 20), ("sap:batched_worlds_reading_row_1", 2)):
     if cov.get(name, 0) < least:
       unmet.append(f"sapband family: {name} = {cov.get(name, 0)} < {least}")
+  # the lateplane family must have produced contacts of plane pairs in which the plane is the second geom and the other
+  # geom sits far from the plane's origin
+  if "lateplane" not in feats:
+    unmet.append("feature never generated: lateplane")
+  for name, least in (("lateplane:planes_not_on_worldbody", 3), ("lateplane:contact_pairs_plane_is_second_geom", 20), ("lateplane:contact_pairs_plane_is_second_geom_centre_far_from_plane_origin", 10)):
+    if cov.get(name, 0) < least:
+      unmet.append(f"lateplane family: {name} = {cov.get(name, 0)} < {least}")
   if cov.get("bodies_marked_asleep", 0) < 5:
     unmet.append("fewer than 5 sleeping bodies across sleep cases")
   if cov.get("incremental:configs", 0) < 10 or cov.get("incremental:contacts_added_by_second_pass", 0) < 3:
